@@ -483,12 +483,12 @@ func (c *FnCtx) applyCallee(st *State, site ast.Node, key string, sig *types.Sig
 		// the callee may allocate: the watermark moves (fresh(x) in its postcondition means pre.alloc < x <= alloc)
 		na := c.smt.freshConst("alloc", SInt)
 		st.pc = append(st.pc, mkLe(st.alloc, na)) // holds whether or not the call is reached (short-circuit guards)
-		if ct.Fresh && len(rs) > 0 {
+		if ct.Fresh && len(rs) > 0 && rs[0].Sort == SInt {
 			st.assume(mkOr(mkEq(rs[0], intLit(0)), mkAnd(mkLt(st.alloc, rs[0]), mkLe(rs[0], na))))
 		}
 		st.alloc = na
 	}
-	if ct.NonNil && len(rs) > 0 {
+	if ct.NonNil && len(rs) > 0 && rs[0].Sort == SInt {
 		st.assume(mkNot(mkEq(rs[0], intLit(0))))
 	}
 	if ct.Trusted {
